@@ -49,6 +49,7 @@ func runC21(c *core.Ctx) {
 	c.Floor("C21/unsigned-sub-guarded", 3)
 	c21BigProducts(c)
 	c21GatedModifier(c)
+	c21FeeParts(c)
 
 	if fn := anchorM(c, pkg, "economicsData", "CheckValidityTxValues"); fn != nil {
 		type want struct{ name, a, b string }
@@ -196,5 +197,80 @@ func c21GatedModifier(c *core.Ctx) {
 	}
 	if n == 0 {
 		c.Undecided("C21/modifier-read-behind-activation-flag", "economicsData.gasPriceModifier", token.NoPos, "no read of the field found")
+	}
+}
+
+// c21FeeParts: the two parts of a fee are computed the same way wherever they are computed. (a) a
+// move-balance fee (price for move x gas limit) is formed only where the item is known not to be a
+// smart contract result - those pay no move-balance fee - i.e. behind a false
+// isSmartContractResult(tx) test, or through ComputeMoveBalanceFee which contains that test;
+// (b) the processing fee is the product of GasPriceForProcessing(tx) and the gas, which is the
+// quantity the refund path divides by.
+func c21FeeParts(c *core.Ctx) {
+	const pkg = "process/economics"
+	n := 0
+	for _, fn := range c.P.FuncsOfPkg(pkg) {
+		k := 0
+		core.Instrs(fn, func(in ssa.Instruction) {
+			call, ok := in.(*ssa.Call)
+			if !ok || call.Call.StaticCallee() == nil {
+				return
+			}
+			nm := call.Call.StaticCallee().Name()
+			if nm != "SafeMul" && nm != "Mul" {
+				return
+			}
+			fromMovePrice := false
+			for _, a := range call.Call.Args {
+				for x := range core.BackwardReachPure(a) {
+					if c2, isC := x.(*ssa.Call); isC && c2.Call.StaticCallee() != nil && c2.Call.StaticCallee().Name() == "GasPriceForMove" {
+						fromMovePrice = true
+					}
+				}
+			}
+			if !fromMovePrice {
+				return
+			}
+			k++
+			n++
+			c.Analysed(fname(fn))
+			guarded := false
+			for _, cd := range core.CondsAt(call.Block()) {
+				if c2, isC := cd.V.(*ssa.Call); isC && !cd.Taken && c2.Call.StaticCallee() != nil && c2.Call.StaticCallee().Name() == "isSmartContractResult" {
+					guarded = true
+				}
+			}
+			c.Check(guarded, "C21/move-balance-fee-not-for-contract-results", fmt.Sprintf("%s/move-fee#%d", fname(fn), k), call.Pos(),
+				"the move-balance fee is formed only where isSmartContractResult(tx) is known false",
+				"a move-balance fee is computed without the smart-contract-result test that its sibling computations make: for a smart contract result the fee derived from gas used then exceeds the full fee (which charges it no move-balance part)")
+		})
+	}
+	c.Floor("C21/move-balance-fee-not-for-contract-results", 2)
+	if fn := anchorM(c, pkg, "economicsData", "ComputeFeeForProcessing"); fn != nil {
+		c.Analysed(fname(fn))
+		ok, why := true, ""
+		for _, r := range core.Returns(fn) {
+			v := core.RetOperand(r, 0)
+			price, gas := false, false
+			call, isCall := v.(*ssa.Call)
+			if isCall && call.Call.StaticCallee() != nil && (call.Call.StaticCallee().Name() == "SafeMul" || call.Call.StaticCallee().Name() == "Mul") {
+				for _, a := range call.Call.Args {
+					for x := range core.BackwardReachPure(a) {
+						if c2, isC := x.(*ssa.Call); isC && c2.Call.StaticCallee() != nil && c2.Call.StaticCallee().Name() == "GasPriceForProcessing" {
+							price = true
+						}
+						if x == ssa.Value(fn.Params[2]) {
+							gas = true
+						}
+					}
+				}
+			}
+			if !price || !gas {
+				ok, why = false, "the processing fee returned at "+c.P.Pos(r.Pos())+" is not the exact product GasPriceForProcessing(tx) x gas"
+			}
+		}
+		c.Check(ok, "C21/processing-fee-is-price-times-gas", "economicsData.ComputeFeeForProcessing", fn.Pos(),
+			"the processing fee is the product of the (truncated) processing price and the gas",
+			why+": the refund path converts a fee back into gas by dividing by GasPriceForProcessing, so any other rounding makes the gas derived from a refund exceed the gas limit")
 	}
 }
